@@ -286,7 +286,9 @@ fn gen_tag(r: &mut Rng, m: Mode) -> String {
         8 => {
             // through try_from: a known name in some letter case, or a word
             let n = if r.chance(1, 2) {
-                let t = &crate::tags::MPD_TAG_NAMES[r.below(35)];
+                // (the whole table: also the words that are selectors or keywords elsewhere in MPD's filter
+                // syntax — `base`, `modified-since`, `added-since`, `any`, `file`, `AudioFormat`, `prio`)
+                let t = &crate::tags::MPD_TAG_NAMES[r.below(crate::tags::MPD_TAG_NAMES.len())];
                 if r.chance(1, 2) { t.to_ascii_lowercase() } else { t.to_string() }
             } else {
                 let mut w = String::from("x");
@@ -397,6 +399,15 @@ fn gen_tree(r: &mut Rng, depth: usize, budget: &mut isize, m: Mode) -> String {
                     _ => gen_tree(r, depth - 1, budget, m),
                 })
                 .collect();
+            // a conjunction may hold the same condition more than once (`a AND a`, `a AND b AND a`): every
+            // operand is a clause of its own, duplicates included — one time in five an operand is repeated
+            let mut xs = xs;
+            if r.chance(1, 5) {
+                let k = r.below(xs.len());
+                let dup = xs[k].clone();
+                let at = r.below(xs.len() + 1);
+                xs.insert(at, dup);
+            }
             bracket(r, xs)
         }
     }
